@@ -145,3 +145,55 @@ static STAGE3_RULES: LazyLock<Vec<Rewrite>> = LazyLock::new(|| {
     rules.append(&mut rules::order::order_rules());
     rules
 });
+
+/// Verification hooks: expose the compiled rule inventory and a rule-filtered optimizer.
+#[cfg(risinglight_verif)]
+impl Optimizer {
+    /// Returns `(stage, name, lhs pattern, rhs pattern if the applier is a pattern)` for every
+    /// rewrite the optimizer may apply, built from the same statics `optimize` uses.
+    pub fn verif_rule_inventory() -> Vec<(String, String, String, Option<String>)> {
+        fn dump(stage: &str, rules: &[Rewrite], out: &mut Vec<(String, String, String, Option<String>)>) {
+            for r in rules {
+                out.push((
+                    stage.to_string(),
+                    r.name.to_string(),
+                    r.searcher
+                        .get_pattern_ast()
+                        .map(|p| p.to_string())
+                        .unwrap_or_default(),
+                    r.applier.get_pattern_ast().map(|p| p.to_string()),
+                ));
+            }
+        }
+        let mut out = vec![];
+        dump("stage1", &STAGE1_RULES, &mut out);
+        dump("stage2", &STAGE2_RULES, &mut out);
+        dump("stage2-range", &rules::range::filter_scan_rule(), &mut out);
+        dump("stage3", &STAGE3_RULES, &mut out);
+        out
+    }
+
+    /// Same three stages as `optimize`, with the named rules removed from every stage.
+    pub fn verif_optimize_without(&self, mut expr: RecExpr, banned: &[String]) -> RecExpr {
+        let keep = |rs: Vec<&'static Rewrite>| -> Vec<Rewrite> {
+            rs.into_iter()
+                .filter(|r| !banned.iter().any(|b| b == r.name.as_str()))
+                .cloned()
+                .collect()
+        };
+        let mut cost = f32::MAX;
+        let mut extra_rules = vec![];
+        if self.analysis.config.enable_range_filter_scan {
+            extra_rules.append(&mut rules::range::filter_scan_rule());
+        }
+        extra_rules.retain(|r| !banned.iter().any(|b| b == r.name.as_str()));
+        let s1 = keep(STAGE1_RULES.iter().collect());
+        let mut s2 = keep(STAGE2_RULES.iter().collect());
+        s2.extend(extra_rules);
+        let s3 = keep(STAGE3_RULES.iter().collect());
+        self.optimize_stage(&mut expr, &mut cost, s1.iter(), 2, 6);
+        self.optimize_stage(&mut expr, &mut cost, s2.iter(), 4, 6);
+        self.optimize_stage(&mut expr, &mut cost, s3.iter(), 3, 8);
+        expr
+    }
+}
